@@ -696,6 +696,17 @@ def step (_ : Unit) (ws : List String) : Unit × String :=
     match ver.toNat?, hflag.toNat?, bodyLen.toNat?, parseLenRes enc, parseLenRes dec with
     | some v, some hf, some n, some e, some d => bigOp comp v hf n e d
     | _, _, _, _, _ => "bad-op"
+  | ["rxbig", _, flag, _, _, plen, dec] =>
+    -- a response of plen payload bytes on a v4 connection with the codec negotiated, to a waiting call:
+    -- Conn.recv hands readFrame's outcome to the call and goes on (C18_recv_transparent,
+    -- C18_recv_compressed_error); readFrame through lengths (C18_read_by_length)
+    match flag.toNat?, plen.toNat?, parseLenRes dec with
+    | some fl, some pl, some d =>
+      let fb := (UInt8.ofNat fl &&& flagCompress) == flagCompress
+      (match readLen (toInt32 (pl % 4294967296)) pl fb (some (d.getD (.error ()))) with
+       | .ok n => s!"resp=ok:len={n},same=true alive"
+       | .error e => s!"resp={errName e} alive")
+    | _, _, _ => "bad-op"
   | ["bigx", comp, ver, hflag, bodyLen, _, enc, dec] =>
     match ver.toNat?, hflag.toNat?, bodyLen.toNat?, parseLenRes enc, parseLenRes dec with
     | some v, some hf, some n, some e, some d => bigOp comp v hf n e d
